@@ -16,6 +16,7 @@ THEOREMS = [
     "Mpc.C19_terminates",
     "Mpc.C19_mesh_final",
     "Mpc.C19_final_quiet",
+    "Mpc.C19_conn_id_one_byte",
     "Mpc.C19_fix_blocks_early_wait",
     "Mpc.C19_old_order_deadlock",
     "Mpc.C19_old_order_return_incomplete",
@@ -56,6 +57,9 @@ TIME_PATTERNS = [
     (r"\bDialTimeout\b|\bnet\.Dialer\b|\bListenConfig\b|\bKeepAlive\b", "net dial/listen timeout configuration"),
     (r"\b(?:[Tt]imeout|[Dd]eadline|Ticker|Timer|Sleep|AfterFunc)\b", "timeout/deadline/ticker/sleep identifier"),
 ]
+WIDE_ALL = ",".join("%d:%d" % (n, m) for m in (5, 8, 15, 16, 17, 20, 33, 64) for n in (2, 3)) + ",4:17"
+WIDE_QUICK = WIDE_ALL + ",2:256"
+WIDE_THOROUGH = WIDE_ALL + ",2:128,3:128,2:255,2:256,3:256,5:17,6:9"
 LATE_QUICK = "gap:6000"
 LATE_THOROUGH = "gap:6000,gap:12000,start:6000,start:12000,leader:6000,leader:12000,gap:31000,leader:31000"
 LATE_WIDE = LATE_THOROUGH + ",start:31000,gap:9000,gap:16000,gap:21000,leader:21000,gap:61000"
@@ -100,6 +104,54 @@ def time_independence(ctx):
     ctx.fact("mesh-formation code has no time dependence (no package time/context, no Set*Deadline, no dial/listen "
              "timeouts, no tickers/timers/sleeps in p2p/network.go, p2p/peer.go, p2p/protocol.go)", hits[:12], [])
     return not hits
+
+
+def go_int(tok, consts, depth=0):
+    """Value of a Go integer literal or of a package-level constant defined by literals, | and <<."""
+    tok = tok.strip()
+    if depth > 6:
+        return None
+    try:
+        return int(tok, 0)
+    except ValueError:
+        pass
+    if "|" in tok:
+        vals = [go_int(t, consts, depth + 1) for t in tok.split("|")]
+        return None if None in vals else eval("|".join(str(v) for v in vals))
+    if "<<" in tok:
+        a, b = tok.split("<<", 1)
+        a, b = go_int(a, consts, depth + 1), go_int(b, consts, depth + 1)
+        return None if a is None or b is None else a << b
+    return go_int(consts[tok], consts, depth + 1) if tok in consts else None
+
+
+def hello_id_coding(ctx):
+    """The connection id must be encoded, bounded and decoded over the same range: the model's 0..255."""
+    src = strip_go_comments(vlib.repo_file("p2p/network.go"))
+    consts = dict(re.findall(r"^\s*(\w+)\s*=\s*([^\n]+?)\s*$", src, flags=re.M))
+    dial = body(r"\(nw \*Network\) dial\(")
+    acc = body(r"\(nw \*Network\) acceptConn\(")
+    got = {}
+    m = re.search(r"if connID > (\w+)", dial)
+    got["dial_rejects_above"] = go_int(m.group(1), consts) if m else None
+    m = re.search(r"magic := connMagic \| \(connID & (\w+)\)", dial)
+    got["dial_id_mask"] = go_int(m.group(1), consts) if m else None
+    if "connID := int(byte(magic))" in acc:
+        got["accept_id_mask"] = 0xff
+    else:
+        m = re.search(r"connID := (?:int\()?magic ?& ?(\w+)", acc)
+        got["accept_id_mask"] = go_int(m.group(1), consts) if m else None
+    mm = go_int("connMagicMask", consts)
+    got["bits_outside_magic_mask"] = None if mm is None else (~mm) & 0xffffffff
+    cm = go_int("connMagic", consts)
+    got["magic_low_bits_clear"] = None if cm is None or mm is None else (cm & ~mm & 0xffffffff) == 0
+    create = re.sub(r"\s+", " ", vlib.go_func_body("p2p/network.go", r"Create\(") or "")
+    got["numConns_upper_bound_in_Create"] = bool(re.search(r"numConns > ", create))
+    want = {"dial_rejects_above": 0xff, "dial_id_mask": 0xff, "accept_id_mask": 0xff, "bits_outside_magic_mask": 0xff,
+            "magic_low_bits_clear": True, "numConns_upper_bound_in_Create": False}
+    ctx.fact("hello id coding: dial admits ids 0..0xff, encodes them with mask 0xff, acceptConn decodes the low byte, "
+             "connMagicMask leaves exactly that byte free (model: helloId k = k % 256, dial rejects k > 0xff; theorems "
+             "for m <= 256)", got, want)
 
 
 def body(func_re):
@@ -162,6 +214,7 @@ def run(ctx):
     have_hooks = hooks_present(ctx)
     facts(ctx)
     timeless = time_independence(ctx)
+    hello_id_coding(ctx)
     quick = ctx.tier == "quick"
     n = 600 if quick else 5000
     par = "8" if quick else "12"
@@ -171,7 +224,10 @@ def run(ctx):
             # long-delay schedules (one party far later than any plausible timeout) run in parallel
             # with the regular sessions of the first seed: one in the quick tier, eight in thorough
             late = (LATE_QUICK if quick else LATE_THOROUGH) if s == seeds[0] else ""
-            ops, out, meta = ctx.run_hx("mesh", n, seed=s, extra_args=["-par", par] + (["-late", late] if late else []))
+            # meshes with many connections per pair (5 .. 256, around the nibble and byte boundaries)
+            wide = WIDE_QUICK if quick else WIDE_THOROUGH
+            ops, out, meta = ctx.run_hx("mesh", n, seed=s, extra_args=["-par", par, "-wide", wide] +
+                                        (["-late", late] if late else []))
             ctx.absorb_meta(meta)
             ctx.correspond("recorded traces are runs of the model with the observed outcome (seed %d)" % s, ops, out)
             for line in open(ops, errors="replace"):
@@ -200,7 +256,8 @@ def run(ctx):
             for s in range(ctx.seed + 7000, ctx.seed + 7003):
                 late = LATE_WIDE if s == ctx.seed + 7000 else ""
                 ops, out, meta = ctx.run_hx("mesh", 400, seed=s, tag="-widen",
-                                            extra_args=["-par", "20"] + (["-late", late] if late else []))
+                                            extra_args=["-par", "20", "-wide", WIDE_THOROUGH] +
+                                            (["-late", late] if late else []))
                 ctx.absorb_meta(meta, prefix="widen_")
                 if [f for f in ctx.fails if not ctx.is_known(f)]:
                     break
@@ -213,6 +270,8 @@ def run(ctx):
         "the check of need[k] and the store); oracle per session: every Connect returns nil before the deadline, table at return and final table "
         "complete (n peers, exactly m non-nil connections each, no *Conn in two slots, need all 0), tagged ping "
         "(from,to,k) on every Peers[q].Conns[k] in both directions arrives on the peer's Conns[k] for the sender; "
+        "plus meshes with many connections per pair (n = 2, 3: m = 5, 8, 15, 16, 17, 20, 33, 64; n = 4: m = 17; "
+        "n = 2: m = 256; thorough also m = 128, 255 and n = 3: m = 256) "
         "plus long-delay sessions (one party's Connect 6 s after its Join in the quick tier; gap/start/leader lateness "
         "of 6, 12, 31 s in the thorough tier); distinct = distinct recorded traces")
     ctx.assumptions += [
@@ -224,7 +283,10 @@ def run(ctx):
         "need[0] = 0, i.e. after the last append: proved as part of the invariant)",
         "in a recorded trace the store of an accepted connection is placed directly before its need[k]-- (it has no "
         "hook of its own; it lies between the hooks accepted and accdec on one goroutine)",
-        "real timing is sampled (seeded delays + OS scheduling), not enumerated; m <= 256 (dial rejects larger ids)",
+        "real timing is sampled (seeded delays + OS scheduling), not enumerated",
+        "m <= 256: the connection id travels in one byte of the hello word and dial rejects ids above 0xff; Create/Join "
+        "do not bound numConns, so m > 256 fails in dial ('invalid connection ID') - outside the theorems and the "
+        "property's range; the four constants of the coding are compared on every run",
         "the model has no clock: that the mesh-formation code does not depend on time is a structural fact extracted "
         "from p2p/network.go, peer.go, protocol.go on every run, backed by long-delay sessions (a party 6 s .. 31 s late "
         "between Join and Connect, before Join, or the leader late; up to 61 s in the widened search)",
